@@ -14,7 +14,7 @@
 
 enum { OK_CTR, OK_PAR };
 enum { PH_ZERO, PH_LIVE, PH_CLEANED, PH_FAILED };
-enum { L_INIT, L_KEY, L_TKEY, L_TWEAK, L_CTR, L_USE, L_USEBIG, L_SWAP, L_CLEANUP, L_KEYSHORT, L_USE0, L_INITFAIL, L_USEDEC };
+enum { L_INIT, L_KEY, L_TKEY, L_TWEAK, L_CTR, L_USE, L_USEBIG, L_SWAP, L_CLEANUP, L_KEYSHORT, L_USE0, L_INITFAIL, L_USEDEC, L_KEYBAD };
 
 static int g_mode;               /* 15 or 17 */
 static int g_okind; static Cipher g_c; static int g_be, g_bs;
@@ -53,6 +53,7 @@ static void l_build(void)
         }
         l_ops[l_nops].type = L_USE; l_ops[l_nops++].obj = i;
         if (g_mode == 15) { l_ops[l_nops].type = L_USE0; l_ops[l_nops++].obj = i; }      /* zero-length request: still 0 on a dead object */
+        if (g_mode == 17 || i == 0) { l_ops[l_nops].type = L_KEYBAD; l_ops[l_nops++].obj = i; }   /* a key-setting call that must be refused: the object's life cycle goes on as before */
         if (g_okind == OK_PAR && g_c != CK_MANTIS && (g_mode == 17 || i == 0)) { l_ops[l_nops].type = L_USEDEC; l_ops[l_nops++].obj = i; }   /* the decrypt entry point */
         if (g_mode == 17 && g_okind == OK_CTR) { l_ops[l_nops].type = L_USEBIG; l_ops[l_nops++].obj = i; }
         if (g_okind == OK_PAR && g_c == CK_MANTIS) { l_ops[l_nops].type = L_SWAP; l_ops[l_nops++].obj = i; }
@@ -84,7 +85,7 @@ static int l_enabled(int op)
 
 static void l_opname(int op, char *buf, size_t n)
 {
-    static const char *nm[] = {"init", "set_key", "set_tweaked_key", "set_tweak", "set_counter", "use", "use(batch+3)", "swap_modes", "cleanup", "set_key(shortest)", "use(0 bytes)", "init[allocation refused]", "use(decrypt)"};
+    static const char *nm[] = {"init", "set_key", "set_tweaked_key", "set_tweak", "set_counter", "use", "use(batch+3)", "swap_modes", "cleanup", "set_key(shortest)", "use(0 bytes)", "init[allocation refused]", "use(decrypt)", "set_key(refused)"};
     snprintf(buf, n, "%s(obj%d)", nm[l_ops[op].type], l_ops[op].obj);
 }
 
@@ -188,6 +189,12 @@ static void l_apply(int op, int check)
         if (g_okind == OK_CTR) r = ctr_set_key(g_c, &b->h.c, KEYS[1], (unsigned)g_bs, 5);
         else r = par_set_key(g_c, &b->h.p, KEYS[1], (unsigned)g_bs, 5, MANTIS_ENCRYPT);
         if (b->phase == PH_LIVE) b->keyed = 1;
+        break;
+    case L_KEYBAD:     /* Mantis: 4 rounds; Skinny: one byte less than a block */
+        if (g_okind == OK_CTR) r = ctr_set_key(g_c, &b->h.c, KEYS[1], g_c == CK_MANTIS ? 16 : (unsigned)g_bs - 1, 4);
+        else r = par_set_key(g_c, &b->h.p, KEYS[1], g_c == CK_MANTIS ? 16 : (unsigned)g_bs - 1, 4, MANTIS_ENCRYPT);
+        if (check && r != 0) l_report("invalid-key-accepted", op, "a key-setting call that must be refused returned %d", r);
+        r = -2;
         break;
     case L_TKEY:
         r = ctr_set_tweaked_key(g_c, &b->h.c, KEYS[1], (unsigned)g_bs * 2);
@@ -501,6 +508,7 @@ static void body(void)
 int main(int argc, char **argv)
 {
     parse_opts(argc, argv);
+    g_obj_args_copy = 1;    /* every key, tweak and counter buffer of this harness is at least as long as the length passed with it */
     run_prelude();
     if (!g_opts.sub) engine_error("--sub required");
     if (g_prelude_crashed) {   /* init / key / use / cleanup of CTR and parallel objects, all valid, on zeroed handles: a life-cycle matter */
